@@ -38,16 +38,28 @@ def bind(nparams, last, args):
     return out
 
 
-def callee_source(nparams, last, ret):
+HEADER_SPELLINGS = (', ', ',', ' ,\t', '\t,  ', ' , ')
+
+
+def callee_source(nparams, last, ret, sep=', '):
     ps = [f'p{i + 1}' for i in range(nparams)]
     # globals with the parameters' names: a missing parameter is null in the call, it must never fall through to these
-    head = "p1 = 'G1'\np2 = 'G2'\np3 = 'G3'\n" + 'function ff(' + ', '.join(ps) + ('...' if last and nparams else '') + '):'
+    head = "p1 = 'G1'\np2 = 'G2'\np3 = 'G3'\n" + 'function ff(' + sep.join(ps) + ('...' if last and nparams else '') + '):'
     body = ["    systemLog('ff:' + jsonStringify(arrayNew(" + ', '.join(ps) + ')))']
     body.append('    return ' + ret)
     return [head] + body + ['endfunction']
 
 
-def convention_case(nparams, last, nargs, path):
+def convention_case(nparams, last, nargs, path, sep=', '):
+    global _SEP  # pylint: disable=global-statement
+    _SEP = sep
+    return _convention_case(nparams, last, nargs, path)
+
+
+_SEP = ', '
+
+
+def _convention_case(nparams, last, nargs, path):
     """Returns (source, expected logs, expected result canonical or None if not compared)."""
     args = [10 * (i + 1) for i in range(nargs)]
     arg_text = ', '.join(str(a) for a in args)
@@ -58,20 +70,20 @@ def convention_case(nparams, last, nargs, path):
         return 'ff:' + rv.json_text(bind(nparams, last and nparams > 0, actual))
 
     if path == 'direct':
-        src = callee_source(nparams, last, ret_array) + [f'return ff({arg_text})']
+        src = callee_source(nparams, last, ret_array, _SEP) + [f'return ff({arg_text})']
         return src, [log_of(args)], bind(nparams, last and nparams > 0, args)
     if path == 'variable':
-        src = callee_source(nparams, last, ret_array) + ['gf = ff', f'return gf({arg_text})']
+        src = callee_source(nparams, last, ret_array, _SEP) + ['gf = ff', f'return gf({arg_text})']
         return src, [log_of(args)], bind(nparams, last and nparams > 0, args)
     if path in ('partial1', 'partial2'):
         bound = [101] if path == 'partial1' else [101, 102]
-        src = callee_source(nparams, last, ret_array) + [f'pf = systemPartial(ff, {", ".join(map(str, bound))})', f'return pf({arg_text})']
+        src = callee_source(nparams, last, ret_array, _SEP) + [f'pf = systemPartial(ff, {", ".join(map(str, bound))})', f'return pf({arg_text})']
         actual = bound + args
         return src, [log_of(actual)], bind(nparams, last and nparams > 0, actual)
     if path == 'indexof':
         # predicate called with one argument per element until the result is truthy (a non-empty array)
         elems = [7, 8]
-        src = callee_source(nparams, last, ret_array) + ['return arrayIndexOf(arrayNew(7, 8), ff)']
+        src = callee_source(nparams, last, ret_array, _SEP) + ['return arrayIndexOf(arrayNew(7, 8), ff)']
         logs = []
         result = -1
         for i, e in enumerate(elems):
@@ -82,14 +94,14 @@ def convention_case(nparams, last, nargs, path):
         return src, logs, result
     if path == 'sort':
         # comparator called with two arguments; which pairs and how often is the sort algorithm's business
-        src = callee_source(nparams, last, '0') + ['arraySort(arrayNew(2, 1), ff)', "return 'done'"]
+        src = callee_source(nparams, last, '0', _SEP) + ['arraySort(arrayNew(2, 1), ff)', "return 'done'"]
         return src, ('each', [log_of([2, 1]), log_of([1, 2])]), 'done'
     if path == 'nested':
-        src = callee_source(nparams, last, ret_array) + ['function outer(p1):', f'    return ff({arg_text})', 'endfunction', 'return outer(999)']
+        src = callee_source(nparams, last, ret_array, _SEP) + ['function outer(p1):', f'    return ff({arg_text})', 'endfunction', 'return outer(999)']
         return src, [log_of(args)], bind(nparams, last and nparams > 0, args)
     if path == 'datafilter':
         inner = ', '.join(['a'] + [str(a) for a in args])
-        src = callee_source(nparams, last, ret_array) + [f"dd = dataFilter(arrayNew(objectNew('a', 5)), 'ff({inner})')", 'return arrayLength(dd)']
+        src = callee_source(nparams, last, ret_array, _SEP) + [f"dd = dataFilter(arrayNew(objectNew('a', 5)), 'ff({inner})')", 'return arrayLength(dd)']
         actual = [5] + args
         keep = len(bind(nparams, last and nparams > 0, actual)) > 0
         return src, [log_of(actual)], 1 if keep else 0
@@ -99,7 +111,7 @@ def convention_case(nparams, last, nargs, path):
 def check_convention(case, acc):
     bs = load_impl()
     nparams, last, nargs, path = case['nparams'], case['last'], case['nargs'], case['path']
-    src_lines, exp_logs, exp_res = convention_case(nparams, last, nargs, path)
+    src_lines, exp_logs, exp_res = convention_case(nparams, last, nargs, path, HEADER_SPELLINGS[case.get('sep', 0)])
     src = '\n'.join(src_lines) + '\n'
     logs = []
     acc.evals += 1
@@ -130,7 +142,8 @@ def fam_convention(arg):
     for case in arg:
         acc.cases += 1
         check_convention(case, acc)
-    acc.sample(dict(arg[len(arg) // 2], source='\n'.join(convention_case(arg[len(arg) // 2]['nparams'], arg[len(arg) // 2]['last'], arg[len(arg) // 2]['nargs'], arg[len(arg) // 2]['path'])[0])))
+    mid = arg[len(arg) // 2]
+    acc.sample(dict(mid, source='\n'.join(convention_case(mid['nparams'], mid['last'], mid['nargs'], mid['path'])[0])))
     return acc.result()
 
 
@@ -140,7 +153,11 @@ def convention_cases():
         for last in ((False, True) if nparams else (False,)):
             for nargs in range(6):
                 for path in PATHS:
-                    out.append({'nparams': nparams, 'last': last, 'nargs': nargs, 'path': path})
+                    out.append({'nparams': nparams, 'last': last, 'nargs': nargs, 'path': path, 'sep': 0})
+                    if nparams >= 2 and path in ('direct', 'nested'):
+                        # the same with other spellings of the parameter list (blanks/tabs around the commas)
+                        for sep in range(1, len(HEADER_SPELLINGS)):
+                            out.append({'nparams': nparams, 'last': last, 'nargs': nargs, 'path': path, 'sep': sep})
     return out
 
 
@@ -407,6 +424,51 @@ def check_scoping(case, acc):
     acc.nontrivial += len(seen)
 
 
+def check_history(case, acc):
+    """One event history from the empty state, compared stepwise - NO state merging: hidden state of the
+    implementation that the canonical form cannot see (an object shared between calls) still shows up when the same
+    event is repeated."""
+    bs = load_impl()
+    evs = events()
+    glob = {}
+    bs.execute_script({'statements': []}, {'globals': glob})
+    st = {'g': {}, 'f': frozenset()}
+    for pos, ei in enumerate(case['history']):
+        event = evs[ei]
+        got = apply_impl(bs, glob, event)
+        exp, new = event[3](st)
+        st = {'g': new['g'], 'f': frozenset(new['f'])}
+        acc.evals += 1
+        acc.transitions += 1
+        exp_c = None if exp is None else (exp[0], canon(exp[1]) if exp[0] == 'value' else exp[1])
+        c2 = dict(case, position=pos, history_names=[evs[i][0] for i in case['history']])
+        if got != exp_c:
+            acc.violation(c2, exp_c, got, f'event {pos} ({event[0]}): result differs from the reference environment model')
+            return
+        uv, rvw = user_view(glob), ref_view(st)
+        if uv != rvw:
+            names = sorted(k for k in set(uv) | set(rvw) if uv.get(k) != rvw.get(k))
+            acc.violation(c2, rvw, uv, f'event {pos} ({event[0]}): globals differ from the reference: ' + ','.join(names))
+            return
+    acc.states += 1
+    acc.traces += 1
+
+
+def fam_histories(arg):
+    length, firsts = arg
+    acc = Acc('histories')
+    n = len(events())
+    for first in firsts:
+        for rest in itertools.product(range(n), repeat=length - 1):
+            acc.cases += 1
+            check_history({'history': [first] + list(rest)}, acc)
+            if len(set((first,) + rest)) < length:
+                acc.nontrivial += 1
+        acc.outcome(first)
+    acc.sample({'history': [events()[i][0] for i in [firsts[0]] * length]})
+    return acc.result()
+
+
 def fam_scoping(arg):
     acc = Acc('scoping')
     for seed in arg:
@@ -531,15 +593,18 @@ def families(tier):
              [names.index('def setg'), names.index('rr=setg()')], [names.index("systemGlobalSet('y',3)"), names.index('def rd')]]
     if tier == 'thorough':
         seeds += [[i] for i in range(len(evs))]
+    hlen = 3 if tier == 'quick' else 4
+    hshards = [(length, [f]) for length in range(1, hlen + 1) for f in range(len(evs))]
     hosts = [{'mask': m, 'p': p, 'kind': k} for k in (0, 1) for m in range(1 << len(HOST_NAMES)) for p in range(len(HOST_PROGRAMS)) if k == 0 or m]
     return [
         Family('convention', fam_convention, split(cc, 16), 'parameters 0..3 x "..." x arguments 0..5 x 8 call paths', expected=len(cc)),
         Family('scoping', fam_scoping, [[s] for s in seeds], f'BFS to fixpoint over {len(evs)} events from {len(seeds)} seed states (each shard a full search)', expected=len(seeds)),
+        Family('histories', fam_histories, hshards, f'every event history of length <= {hlen} over the {len(evs)} events from the empty state, stepwise compared, without state merging', expected=sum(len(evs) ** k for k in range(1, hlen + 1))),
         Family('host', fam_host, split(hosts, 8), 'every subset of host-supplied names {arrayLength, mathAbs, abs, x} (bound to tagged host objects, and bound to null) x 8 programs', expected=len(hosts)),
     ]
 
 
-_CHECKS = {'convention': check_convention, 'scoping': check_scoping, 'host': check_host}
+_CHECKS = {'convention': check_convention, 'scoping': check_scoping, 'host': check_host, 'histories': check_history}
 
 
 def replay(family, case):
